@@ -35,6 +35,7 @@ def run_one(t):
             w.violate("C02.put_accepted", f"ret={ctx.put_rec.ret} exc={ctx.put_rec.exc!r}", "")
         judge(w, ctx.reason, ctx.info.get("base_ind", 0), ctx.info.get("base_fault", 0), ctx.info.get("base_lib_excs"), ctx.info.get("base_internal", 0))
         _eager_user_epilogue(w, t)
+        _repetition_epilogue(w, t)
         return from_world(w, ctx.pop, ctx.nontrivial)
     finally:
         w.close()
@@ -112,6 +113,62 @@ def _eager_user_epilogue(w, t) -> None:
         ok = [i for i in w.ind_log[base_ind:] if i[0] == "b" and i[1][0] == "finished" and i[1][2][:2] == (0, 0)]
         if len(ok) != 2:
             w.violate("C02.one_finished_receiver", f"n={len(ok)} for two transfers ({tag})", "")
+
+
+def _repetition_epilogue(w, t) -> None:
+    """Scale by repetition: with 1-byte sequence numbers, 257 further small transfers through the same handlers, so that the
+    sequence number wraps and every transaction id is used a second time. Each put request must still run to completion."""
+    from pathlib import Path
+
+    from cfdpsim.world import UNACK
+
+    cfg = w.cfg
+    if w.violations or cfg.metadata_only or cfg.seqw != 1 or len(w.src_bytes) > 4 * max(cfg.eff_seg, 1) or not w.all_idle() \
+            or w.a.handlers["src"].packets_ready:
+        return
+    if t.choose(8, "repetition epilogue") != 7:
+        return
+    a = w.a
+    w.heap.clear()
+    w.pending = 0
+    w.pacing = "event"
+    w.polls_stopped = False
+    base_lib = dict(w.lib_excs)
+    base_int = len(w.internal_errors)
+    w.max_events += w.nev + 40000
+    w.max_t += w.clock.t + 10_000_000
+    ok_before = len([i for i in w.ind_log if i[0] == "b" and i[1][0] == "finished" and i[1][2][:2] == (0, 0)])
+    n = 257
+    for k in range(n):
+        r = w.put_request_obj(None)
+        r.trans_mode = UNACK
+        r.closure_requested = bool(k % 2)
+        r.dest_file = Path("dst/rep.bin")
+        rec = w.call(a, "src", "put", arg=r)
+        if rec.ret is not True or rec.exc is not None:
+            w.violate("C02.put_accepted", f"transfer {k + 1} of the repetition: ret={rec.ret} exc={rec.exc!r}", "")
+            return
+        w.start_polls()
+        reason = w.run()
+        if reason != "quiet" or not w.all_idle():
+            w.violate("C02.completes", f"transfer {k + 1} of {n} consecutive small transfers (1-byte sequence numbers, id used before: {k >= 256 - 1}) "
+                      f"src={a.handlers['src'].step.name} dst={w.b.handlers['dst'].step.name}", f"run ended by {reason}")
+            return
+        if w.vfs_a.h_get("dst/rep.bin") != w.src_bytes:
+            w.violate("C02.file_equal", f"transfer {k + 1} of the repetition", "")
+            return
+        w.vfs_a.h_put("dst/rep.bin", b"stale")
+    w.probe("C02.repetition_257_transfers")
+    lib = {k2: v - base_lib.get(k2, 0) for k2, v in w.lib_excs.items() if v - base_lib.get(k2, 0) > 0}
+    if w.internal_errors[base_int:]:
+        e = w.internal_errors[base_int]
+        w.violate("C02.no_exception", f"{e.cls}@{e.func} (repetition)", e.msg)
+    elif lib:
+        w.violate("C02.no_exception", "lib:" + ",".join(sorted(lib)) + " (repetition)", "")
+    if cfg.ind_b & 8:
+        ok = len([i for i in w.ind_log if i[0] == "b" and i[1][0] == "finished" and i[1][2][:2] == (0, 0)]) - ok_before
+        if ok != n:
+            w.violate("C02.one_finished_receiver", f"n={ok} for {n} transfers (repetition)", "")
 
 
 def judge(w: World, reason: str, base_ind: int = 0, base_fault: int = 0, base_lib=None, base_internal: int = 0) -> None:
